@@ -32,7 +32,9 @@ def register(w):
         c.ens(f"legal({A})", label="legal-after-event")
         # P-only clause (ghost state): actions reach the queue only through send(), which appends while processing
         c.ens("appended_only(old(self._event_queue), old(self.g_accepted), self._event_queue, self.g_accepted)", label="ghost:queue-append-only")
-        c.may_raise("Exception", ensures=[f"legal({A})", "ghost:appended_only(old(self._event_queue), old(self.g_accepted), self._event_queue, self.g_accepted)"])
+        c.ens("status_reach(old(self.status), self.status)", label="status-moves-along-allowed-edges")
+        c.may_raise("Exception", ensures=[f"legal({A})", "ghost:appended_only(old(self._event_queue), old(self.g_accepted), self._event_queue, self.g_accepted)",
+                                          "status_reach(old(self.status), self.status)"])
 
     # ---- callees of the exit/entry routines -----------------------------------------------------------
     @w.contract(BI + "_record_history", props=["C11"])
